@@ -85,6 +85,13 @@ type Exec struct {
 	symReads      []*T
 	univ          []*T
 	consumed      map[*Cell]*T
+	batch         []batched // implicit checks assumed but not yet discharged
+}
+
+type batched struct {
+	cond        *T
+	pcIdx       int
+	label, site string
 }
 
 type Stats struct {
@@ -146,6 +153,7 @@ func (ex *Exec) assume(c *T) {
 func (ex *Exec) inNewTerritory() bool { return ex.pos >= len(ex.prefix) }
 
 func (ex *Exec) sat(extra ...*T) smt.Result {
+	ex.flush()
 	as := make([]*T, 0, len(ex.pc)+len(extra))
 	as = append(as, ex.pc...)
 	as = append(as, extra...)
@@ -155,6 +163,62 @@ func (ex *Exec) sat(extra ...*T) smt.Result {
 }
 
 func (ex *Exec) satModel(extra ...*T) (smt.Result, map[string]uint64) {
+	ex.flush()
+	return ex.satModelNoFlush(extra...)
+}
+
+// flush discharges the batched implicit checks with one query (and individually if that query is satisfiable).
+func (ex *Exec) flush() {
+	if len(ex.batch) == 0 {
+		return
+	}
+	b := ex.batch
+	ex.batch = nil
+	soft := map[int]bool{}
+	conj := ex.C.True
+	for _, x := range b {
+		soft[x.pcIdx] = true
+		conj = ex.C.BAnd(conj, x.cond)
+	}
+	var as []*T
+	for i, t := range ex.pc {
+		if !soft[i] {
+			as = append(as, t)
+		}
+	}
+	ex.stats.AssertQueries++
+	r, _ := ex.S.Check(append(append([]*T{}, as...), ex.C.BNot(conj)), nil)
+	if r == smt.Unsat {
+		ex.stats.Proved += int64(len(b))
+		return
+	}
+	// some check may fail (or the solver gave up): examine them one by one under the growing prefix
+	for _, x := range b {
+		var pre []*T
+		for i, t := range ex.pc {
+			if i < x.pcIdx {
+				pre = append(pre, t)
+			}
+		}
+		ex.stats.AssertQueries++
+		save := ex.pc
+		ex.pc = pre
+		r, model := ex.satModelNoFlush(ex.C.BNot(x.cond))
+		ex.pc = save
+		switch r {
+		case smt.Unsat:
+			ex.stats.Proved++
+		case smt.Sat:
+			ex.stats.Violated++
+			ex.report(Report{Kind: "panic", Label: x.label, Site: x.site, Status: "violated", Model: model})
+		default:
+			ex.stats.Inconclusive++
+			ex.report(Report{Kind: "panic", Label: x.label, Site: x.site, Status: "inconclusive", Detail: strings.Join(ex.S.TakeErrors(), "; ")})
+		}
+	}
+}
+
+func (ex *Exec) satModelNoFlush(extra ...*T) (smt.Result, map[string]uint64) {
 	as := make([]*T, 0, len(ex.pc)+len(extra))
 	as = append(as, ex.pc...)
 	as = append(as, extra...)
@@ -164,14 +228,43 @@ func (ex *Exec) satModel(extra ...*T) (smt.Result, map[string]uint64) {
 			want = append(want, t)
 		}
 	}
+	// reads of symbolic-length inputs at symbolic positions: ask for position and value
+	for _, t := range ex.symReads {
+		want = append(want, t)
+		if !t.Args[0].IsConst() {
+			want = append(want, t.Args[0])
+		}
+	}
 	r, m := ex.S.Check(as, want)
 	if r != smt.Sat {
 		return r, nil
 	}
 	out := map[string]uint64{}
-	for _, t := range want {
+	for _, t := range ex.inputs {
+		if t.IsConst() {
+			continue
+		}
 		if v, ok := m[t.ID]; ok {
 			out[ex.inputName(t)] = v
+		}
+	}
+	for _, t := range ex.symReads {
+		v, ok := m[t.ID]
+		if !ok {
+			continue
+		}
+		idx := t.Args[0]
+		var iv uint64
+		if idx.IsConst() {
+			iv = idx.Val
+		} else if x, ok := m[idx.ID]; ok {
+			iv = x
+		} else {
+			continue
+		}
+		key := fmt.Sprintf("%s[%d]", t.Name, iv)
+		if _, dup := out[key]; !dup && iv < 1<<20 {
+			out[key] = v
 		}
 	}
 	return r, out
@@ -264,6 +357,11 @@ func (ex *Exec) safe(cond *T, what, site string) {
 		}
 		return
 	}
+	if ex.mergeDepth == 0 && ex.inNewTerritory() {
+		ex.batch = append(ex.batch, batched{cond: cond, pcIdx: len(ex.pc), label: what, site: site})
+		ex.assume(cond)
+		return
+	}
 	ex.check(cond, "panic", what, site)
 }
 
@@ -339,6 +437,7 @@ func (ex *Exec) concretize(t *T, what string, cap int) uint64 {
 		ex.assume(ex.C.Eq(t, ex.C.Const(d.Val, t.W())))
 		return d.Val
 	}
+	ex.flush()
 	var vals []uint64
 	var block []*T
 	for len(vals) <= cap {
@@ -816,6 +915,7 @@ func (fr *frame) symbolicIf(b *ssa.BasicBlock, c *T, stop *ssa.BasicBlock) (*arm
 // merge executes both arms of the If ending block b and joins them.
 func (fr *frame) merge(b *ssa.BasicBlock, c *T, stop *ssa.BasicBlock) (res *armResult, nb *ssa.BasicBlock, ok bool) {
 	ex := fr.ex
+	ex.flush()
 	J := ex.ipdom(fr.fn, b) // may be nil (exit)
 	type armOut struct {
 		r      armResult
